@@ -85,20 +85,34 @@ Proof. exact errors_copied. Qed.
    Position (stage 1): given pix2sky inverts sky2pix.  Shape (stages 1-2): given that the ellipse conversion
    at the returned pixel position inverts the one at the catalogue position (at stage 1 that position IS the
    catalogue position, first conjunct, so wcs_ell_inverts gives it: C05_stage1_ellipse), for normalised input
-   shapes (a >= b, -90 < pa <= 90) -
-   AND ONLY for shapes inside the limits [0.8 min(sx, beam_b), 1.25 max(sx, sy)] that the code puts on sx / sy:
-   lmfit moves the initial value of a parameter into its limits even when it is not varied
-   (Refuted/C05_shape_clipped.v: the statement without `shape_unclipped` is false for the current leaf). *)
+   shapes (a >= b, -90 < pa <= 90) of non-negative pixel size.  No condition on the shape limits any more:
+   C05_shape_never_clipped shows from the generated s_lims leaf that they always contain the catalogue shape
+   (for the leaf before /repo 318103b they did not: Refuted/C05_shape_clipped.v). *)
 Theorem C05_fixed_roundtrip : forall S P SE PE BM kf kc fit im,
   wcs_inverts S P -> kf * kc == 1 -> fit_keeps_fixed fit ->
   forall st islands c, In c (run S P SE PE BM kf kc fit im st islands) ->
   exists s, In s (accepted_inputs S SE BM kf im islands) /\ o_uuid c = s_uuid s /\
     ((st < 2)%Z -> peq (o_xpix c, o_ypix c) (S (s_ra s, s_dec s)) /\
                    (0 <= s_ra s -> o_ra c == s_ra s /\ o_dec c == s_dec s)) /\
-    ((st < 3)%Z -> shape_unclipped kf (place S SE BM kf s) = true -> s_b s <= s_a s -> -(90 # 1) < s_pa s -> s_pa s <= (90 # 1) ->
+    ((st < 3)%Z -> 0 <= p_sx (place S SE BM kf s) -> 0 <= p_sy (place S SE BM kf s) ->
+       s_b s <= s_a s -> -(90 # 1) < s_pa s -> s_pa s <= (90 # 1) ->
        ell_inverts_at SE PE (s_ra s, s_dec s) (o_xpix c, o_ypix c) ->
        o_a c == s_a s /\ o_b c == s_b s /\ o_pa c == s_pa s).
 Proof. exact fixed_roundtrip. Qed.
+
+(* the limits put on sx / sy contain the catalogue values, so adding the parameters never moves them *)
+Theorem C05_shape_never_clipped : forall kf p, 0 <= p_sx p -> 0 <= p_sy p ->
+  shape_unclipped kf p = true /\
+  forall b, c_sx (comp_params kf b p) = p_sx p /\ c_sy (comp_params kf b p) = p_sy p.
+Proof.
+  intros kf p Hx Hy. split; [exact (shape_unclipped_true kf p Hx Hy)|].
+  intro b. destruct (shape_limits_spec (p_sx p) (p_sy p) (p_beam_a p) (p_beam_b p) kf Hx Hy) as (L1 & L2 & L3 & L4).
+  split; [exact (clip_inside _ _ _ L1 L2)|exact (clip_inside _ _ _ L3 L4)].
+Qed.
+
+(* a position that cannot be projected never reaches the rounding: the guard is present in the source *)
+Theorem C05_unprojectable_skipped : skips_unprojectable = true.
+Proof. exact skips_unprojectable_spec. Qed.
 
 Theorem C05_stage1_ellipse : forall (S : Q * Q -> Q * Q) SE PE sky p,
   wcs_ell_inverts S SE PE -> peq p (S sky) -> ell_inverts_at SE PE sky p.
@@ -166,5 +180,7 @@ Print Assumptions C05_at_most_one.
 Print Assumptions C05_all_returned.
 Print Assumptions C05_errors_copied.
 Print Assumptions C05_fixed_roundtrip.
+Print Assumptions C05_shape_never_clipped.
+Print Assumptions C05_unprojectable_skipped.
 Print Assumptions C05_stage1_ellipse.
 Print Assumptions C05_skip_independent.
